@@ -512,4 +512,90 @@ Proof.
     (* 4: and that is the walk of the result *)
     exact (proj2 (flatten_walk h' top strict Hnd_h' Htop_h' Hplain_h' Hres_h' Htab_h' n e' ds tr st Horig') W3).
 Qed.
+Theorem loop_rotate_h_keeps_ctrace : forall n e e' ds,
+  (exists b p, find h n = Some b /\ n_kind b = KOrig p) ->
+  E (Fl ev bv) e e' ->
+  CTrace h (resolve_flat h) strict n e ds -> CTrace h' (resolve_flat h') strict n e' ds.
+Proof.
+  intros n e e' ds [bn [pn [Hbn Hkn]]] He W.
+  destruct Hhd_leaf as [nhd [Hhd Hhdl]].
+  (* the rotation of the resolved leaf graph *)
+  destruct (loop_rotate_rho rh (fun x => In x dl) Hinj g1 (RL h) hd [hd] exits todo false [] isback latch sexit ev bv names g1' Hrot1)
+    as [G' [EG' [HKrel HF]]].
+  - exact rel_g1_G.
+  - exact Hndt.
+  - exact Hndn.
+  - intros x [<-|[]]. split; [apply (rho_leaf h hd nhd Hhd Hhdl)|]. unfold dl. apply in_or_app. right. left. reflexivity.
+  - intros x Hx. unfold dl. apply in_or_app. left. exact Hx.
+  - apply (rho_leaf h hd nhd Hhd Hhdl).
+  - unfold dl. apply in_or_app. right. left. reflexivity.
+  - apply rho_fresh. apply Hfresh. right. left. reflexivity.
+  - unfold dl. apply in_or_app. right. right. left. reflexivity.
+  - apply rho_fresh. apply Hfresh. right. right. reflexivity.
+  - unfold dl. apply in_or_app. right. right. right. left. reflexivity.
+  - intros p Hp. destruct (Htodo_h p Hp) as [np [Hnp [Hr [Hz Hnb]]]].
+    assert (Eg : efind g1 p = Some (eblk_of np)) by (rewrite efind_g1', Hz, Hnp; reflexivity).
+    exists (eblk_of np). split; [exact Eg|]. split.
+    + unfold nonbranch, eblk_of. cbn. intros cc v t. destruct (n_kind np) eqn:Ek; cbn; try discriminate. exfalso. eapply Hnb; eauto.
+    + split; intros y Hy; apply (in_dl_todo p (eblk_of np) y Hp Eg); apply in_or_app; [left|right]; exact Hy.
+  - intros a Ha. split; [unfold dl; apply in_or_app; right; right; right; right; apply in_or_app; left; exact Ha|].
+    split; [apply rho_fresh; apply Hfresh; left; exact Ha|apply Hnt; exact Ha].
+  - (* the chain *)
+    assert (Horig' : exists b' p', find h' n = Some b' /\ n_kind b' = KOrig p').
+    { assert (Hnl : n <> lvl) by (intros ->; rewrite Hl in Hbn; injection Hbn as <-; unfold is_region in Hlr; rewrite Hkn in Hlr; discriminate).
+      unfold h'. rewrite (find_write_back h lvl g1' n nl Hkeys' Hl Hlvl' Hnl).
+      destruct (efind g1' n) as [b'|] eqn:Eb; [|eauto].
+      eexists. exists pn. split; [reflexivity|]. unfold node_back. rewrite Hbn. cbn [n_kind].
+      destruct (in_dec Z.eq_dec n todo) as [Ht|Hnt0].
+      - destruct (Htodo_h n Ht) as [n0 [Hn0 [_ [Hz _]]]]. rewrite Hbn in Hn0. injection Hn0 as <-.
+        assert (Eg : efind g1 n = Some (eblk_of bn)) by (rewrite efind_g1', Hz, Hbn; reflexivity).
+        rewrite (Hkind n _ _ Ht Eg Eb). cbn [eblk_of e_kind]. rewrite Hkn. reflexivity.
+      - assert (NK : ~ K n).
+        { intros [H|H]; [contradiction|]. rewrite (Hfresh n H) in Hbn. discriminate. }
+        destruct (HF n NK) as [A _]. rewrite A, efind_g1' in Eb. destruct (zmem n (children_h nl)); [|discriminate].
+        rewrite Hbn in Eb. injection Eb as <-. cbn [eblk_of e_kind]. rewrite Hkn. reflexivity. }
+    (* 1: h is its resolved leaf graph *)
+    apply (proj1 (flatten_ctrace h top strict Hnd_h Htop_h Hplain_h Hres_jt Htab_h n e ds (ex_intro _ bn (ex_intro _ pn (conj Hbn Hkn))))) in W.
+    (* 2: the rotation of a flat graph keeps the walk *)
+    assert (HnG : exists b, efind (RL h) n = Some b /\ e_kind b = EPlain 100).
+    { exists (rl h bn). split; [rewrite efind_G, Hbn; unfold is_region; rewrite Hkn; reflexivity|]. unfold rl. cbn. rewrite Hkn. reflexivity. }
+    assert (W2 : CTrace (ehier top G') (resolve_flat (ehier top G')) strict n e' ds).
+    { eapply (loop_rotate_keeps_ctrace (RL h) top hd (map rh exits) todo isback latch sexit ev bv names G' strict EG').
+      - split; [exact Hndt|exact HG_todo].
+      - split; [exact Hndn|]. intros a Ha. destruct (HG_names a Ha) as [A [B C]].
+        split; [rewrite efind_G, (Hfresh a (or_introl Ha)); reflexivity|]. split; [apply Hnt; exact Ha|auto].
+      - split; [rewrite efind_G, (Hfresh latch (or_intror (or_introl eq_refl))); reflexivity|exact HG_latch].
+      - intros Hn. rewrite needs_map in Hn. split; [rewrite efind_G, (Hfresh sexit (or_intror (or_intror eq_refl))); reflexivity|apply HG_sexit; exact Hn].
+      - exact HG_exits.
+      - eapply efind_keys. rewrite efind_G, Hhd, Hhdl. reflexivity.
+      - intros Hi. apply Htop_h. apply ekeys_RL. exact Hi.
+      - intros x b t Hb Ht. destruct (efind (RL h) t) as [bt|] eqn:Et; [eapply efind_keys; eauto|].
+        exfalso. exact (RL_closed h Hnd_h Hres_jt x b t Hb Ht Et).
+      - exact HG_vars.
+      - exact HnG.
+      - exact He.
+      - exact W. }
+    (* 3: the rotated leaf graph is the leaf graph of the result *)
+    assert (Hlink : forall x, efind (RL h') x = efind G' x).
+    { assert (HtodoW : forall p, In p todo -> exists n0, find h p = Some n0 /\ is_region n0 = false /\ zmem p (children_h nl) = true).
+      { intros p Hp. destruct (Htodo_h p Hp) as [np [A [B [C _]]]]. eauto. }
+      assert (HkindW : forall p b b', In p todo -> efind g1 p = Some b -> efind g1' p = Some b' ->
+                 match e_kind b' with EBranch _ _ _ => True | k => k = e_kind b end).
+      { intros p b b' Hp Hb Hb'. rewrite (Hkind p b b' Hp Hb Hb'). destruct (e_kind b); reflexivity. }
+      intros x. unfold h'.
+      exact (link h lvl nl todo names latch sexit g1 g1' G' Hl Hlr HLG Hnd_h Hkeys' Hlvl' Hfresh HtodoW Hstay HkindW
+                  HKrel (fun x0 NK => proj1 (HF x0 NK)) (fun x0 NK => proj2 (HF x0 NK)) Hres_h Hres_new Hnd_h' x). }
+    assert (W3 : CTrace (ehier top (RL h')) (resolve_flat (ehier top (RL h'))) strict n e' ds).
+    { destruct Horig' as [b' [p' [Hb' Hk']]].
+      assert (HnG' : exists b, efind (RL h') n = Some b /\ e_kind b = EPlain 100).
+      { exists (rl h' b'). split; [rewrite (efind_RL' h' n Hnd_h'), Hb'; unfold is_region; rewrite Hk'; reflexivity|].
+        unfold rl. cbn. rewrite Hk'. reflexivity. }
+      apply (proj2 (ehier_congr_c (RL h') G' top strict Hlink
+                      (fun Hi => Htop_h' (ekeys_RL h' top Hi))
+                      (RL_closed h' Hnd_h' Hres_h') n e' ds HnG')).
+      exact W2. }
+    (* 4: and that is the walk of the result *)
+    exact (proj2 (flatten_ctrace h' top strict Hnd_h' Htop_h' Hplain_h' Hres_h' Htab_h' n e' ds Horig') W3).
+Qed.
+
 End Final.
